@@ -407,7 +407,7 @@ def check_correlation():
   """Two (three) concurrent requests, replies in every order: each caller gets the reply with its correlation id."""
   viol = []
   n = 0
-  for k in (2, 3):
+  for k, batched in ((2, False), (3, False), (2, True), (3, True)):
     for order in itertools.permutations(range(k)):
       n += 1
       world.reset()
@@ -423,13 +423,21 @@ def check_correlation():
       if len(set(r['correlation_id'] for r in reqs)) != k:
         viol.append({'clause': 'C15.correlation', 'message': 'concurrent requests share correlation ids %r' % ([r['correlation_id'] for r in reqs],), 'sig': {}})
         break
-      for i in order:
-        ch.reply(K.produce_response(reqs[i]['correlation_id'], [(b'topic%d' % i, [(i, 0, 100 + i)])]))
+      if batched:
+        # all replies are already in the socket buffer when the receive loop wakes up: it reads them without yielding in between
+        for i in order:
+          ch.conn.rx += K.frame(K.produce_response(reqs[i]['correlation_id'], [(b'topic%d' % i, [(i, 0, 100 + i)])]))
+        ch.conn.wake()
+        ch.pump()
+      else:
+        for i in order:
+          ch.reply(K.produce_response(reqs[i]['correlation_id'], [(b'topic%d' % i, [(i, 0, 100 + i)])]))
       for i in range(k):
         resp = ch.term.responses.get('c%d' % i, [])
         rv = resp[0][1].return_value if len(resp) == 1 and resp[0][1] is not None else None
         if not rv or tuple(rv[0]) != (b'topic%d' % i, i, 0, 100 + i):
-          viol.append({'clause': 'C15.correlation', 'message': 'reply order %r: request %d received %r' % (order, i, rv), 'sig': {}})
+          viol.append({'clause': 'C15.correlation', 'message': 'reply order %r%s: request %d received %r'
+                       % (order, ' (all replies in the socket buffer at once)' if batched else '', i, rv), 'sig': {}})
           break
   return {'n': n, 'keys': n, 'viol': viol, 'sample': {'concurrent_requests': 3, 'reply_orders': 6}}
 
